@@ -730,7 +730,7 @@ func TestVerifAdapt(t *testing.T) {
 				last, since = c, time.Now()
 				continue
 			}
-			if time.Since(since) > 60*time.Second {
+			if time.Since(since) > time.Duration(vfEnvInt("VERIF_HANG_S", 300))*time.Second {
 				vfEmit(map[string]interface{}{"kind": "hang", "engine": "lbfuzz", "case": c, "case_seed": vfMix2(seed^0xada9, uint64(c))})
 				os.Exit(7)
 			}
